@@ -53,6 +53,23 @@ def ensure_repo_on_path() -> None:
         sys.path.insert(0, REPO)
 
 
+def fresh_z3_context():
+    """Give z3 a brand-new main context.
+
+    cspuz talks to z3 through z3py's process-global main context.  Which model z3 returns depends
+    on everything that context has seen before (symbol numbering, learnt state), i.e. on which runs
+    happened to share a worker process.  A run must be a function of its scenario only, so every
+    run starts from a fresh context.  (Harness side only; nothing in /repo is touched.)"""
+    try:
+        import z3
+        import z3.z3 as zz
+    except ImportError:
+        return
+    zz._main_ctx = None
+    z3.set_param("smt.random_seed", 0)
+    z3.set_param("sat.random_seed", 0)
+
+
 def import_cspuz():
     ensure_repo_on_path()
     import cspuz  # noqa
